@@ -62,6 +62,8 @@ class Interp:
         self.returns = []   # values of _0 observed at return blocks
 
     def _discr_of(self, val):
+        if isinstance(val, Enum) and val.adt.endswith("option::Option"):
+            return 1 if val.name == "Some" else 0
         if isinstance(val, Enum):
             a = [x for p, x in self.prog.adts.items() if p.split("::")[-1] == val.adt.split("::")[-1] and any(v["name"] == val.name for v in x["variants"])]
             for ad in a:
@@ -71,6 +73,11 @@ class Interp:
         if isinstance(val, tuple) and val and val[0] == "adt":
             if val[1].endswith("option::Option"):
                 return 1 if val[2] == "Some" else 0
+            for p, ad in self.prog.adts.items():
+                if p.split("::")[-1] == val[1].split("::")[-1]:
+                    for v in ad["variants"]:
+                        if v["name"] == val[2] and v["discr"] is not None:
+                            return int(v["discr"])
         return UNKNOWN
 
     def run(self):
@@ -277,7 +284,8 @@ class Interp:
             vals = tuple(self.operand(env, o) for o in rv[2])
             if kind[0] == "adt":
                 if not vals:
-                    return Enum(kind[1], kind[2])
+                    if kind[1].endswith("option::Option") or not kind[3]:
+                        return Enum(kind[1], kind[2])
                 return ("adt", kind[1], kind[2], vals)
             if kind[0] == "tuple":
                 return ("tuple", vals)
